@@ -14,8 +14,10 @@ ALONE (fresh build, only that component enabled) are validated by TLC.  Canaries
 duplicate modules, undefine instantiated modules, inject reserved / duplicate / illegal identifiers and
 alias two instances; each must be rejected.
 
-Violation keys are `<clause>:<root cause>:<design>` (one per root cause and design, the back end is part
-of the key only where the cause is specific to one back end).
+Violation keys are `<clause>:<root cause>:<design>[:<detail>]` (one per root cause and design, the back
+end is part of the key only where the cause is specific to one back end).  Corpus designs that exhibit
+one root cause share an id prefix which no control design has (see c13_corpus.py), so a known-finding
+entry `<clause>:<root cause>:<prefix>*` does not hide a control that starts to fail.
 
 NOTE: Body(x) is the token sequence of `module .. endmodule` of x's own module in the translation of x
 alone (comments and white space removed, because comments carry source paths and line numbers), plus
@@ -289,7 +291,7 @@ def _classify_alias(d, b, ent_a, ent_b, name):
     if [(p[0], p[3]) for p in pa] == [(p[0], p[3]) for p in pb]:
         dif = [(x[0], x[1] + ":" + x[2], y[1] + ":" + y[2]) for x, y in zip(pa, pb) if x[:3] != y[:3]]
         if dif and all(x[1].startswith("bitstruct-class:") and x[2].startswith("bitstruct-class:") for x in dif):
-            return ("alias:typedef-name:as-module-parameter:%s" % did,
+            return ("alias:typedef-name:%s:as-module-parameter" % did,
                     "same class %s; the parameters are two different bitstruct classes whose generated struct "
                     "names coincide: %s" % (ent_a["cls_name"], dif))
         return ("alias:param-str:%s" % did,
@@ -361,12 +363,12 @@ def _report(res, d, outs, trace, info, clause, pos):
                 if modtable.IDENT_RE.match(n):
                     continue
                 if not n.isascii():
-                    k = "ident:illegal:non-ascii:%s:%s" % (cls, did)
+                    k = "ident:illegal:non-ascii:%s:%s" % (did, cls)
                 elif cls == "module-name" and re.match(r"[A-Za-z_][A-Za-z0-9_$]*?__[A-Za-z_][A-Za-z0-9_$]*?_", n):
                     # <Class>__<param>_<str(value)>: the illegal characters come from the parameter string
                     k = "ident:illegal:module-name:param-str:%s" % did
                 else:
-                    k = "ident:illegal:%s:%s:%s" % (cls, _illegal_chars(n), did)
+                    k = "ident:illegal:other:%s:%s:%s" % (did, cls, _illegal_chars(n))
                 groups.setdefault(k, []).append((n, sc))
             for k, v in groups.items():
                 res.violation(k, "%s back end, design %s: not legal identifiers: %s"
@@ -376,7 +378,7 @@ def _report(res, d, outs, trace, info, clause, pos):
             for cls, n, sc in names:
                 if n in modtable._KW:
                     gen = "sv2009+" if n in modtable.KEYWORDS_1800_2009_2012 else "upto-sv2005"
-                    groups.setdefault("ident:reserved:%s:%s:%s" % (gen, cls, did), []).append((n, sc))
+                    groups.setdefault("ident:reserved:%s:%s:%s" % (gen, did, cls), []).append((n, sc))
             for k, v in groups.items():
                 res.violation(k, "%s back end, design %s: reserved words emitted as identifiers: %s"
                               % (b, did, ", ".join("`%s` (scope %s)" % x for x in v[:40])),
@@ -418,7 +420,7 @@ def _report(res, d, outs, trace, info, clause, pos):
                         ta = info["alone"][b][x["path"]][2].typedefs[u["name"]]
                         tb = info["alone"][b][e["path"]][2].typedefs[u["name"]]
                         sub = "fields-differ" if ta["fields"] != tb["fields"] else "field-types-differ"
-                        key = "alias:typedef-name:%s:%s" % (sub, did)
+                        key = "alias:typedef-name:%s:%s" % (did, sub)
                         what = ("%s back end, design %s: instances %s and %s use struct typedef %s with different "
                                 "definitions (fields %s vs %s); one typedef is emitted"
                                 % (b, did, x["path"], e["path"], u["name"], ta["fields"], tb["fields"]))
@@ -491,97 +493,133 @@ def _validate(res, traces, count=True):
 
 
 def _canaries(res, traces, fails, texts):
-    """corrupted copies of accepted traces / texts must be rejected with the expected clause."""
-    good = [t for t, f in zip(traces, fails) if not f]
+    """corrupted copies of real traces / texts must be rejected with the expected clause."""
+    # base traces: accepted ones first; a rejected trace may serve as long as it does not already fail
+    # the clause the canary is about.  If EVERY suitable trace already fails that clause (a defect that
+    # hits most designs), the clause has shown on real traces that it rejects: the canary is skipped --
+    # the verdict must not be replaced by a machinery failure.
+    cand = sorted(zip(traces, fails), key=lambda tf: len(tf[1]))
     can = []
+    skipped = []
 
-    def pick(pred):
-        for t in good:
+    class Skip(Exception):
+        pass
+
+    def pick(pred, want):
+        some = False
+        for t, f in cand:
             if pred(t):
-                return copy.deepcopy(t)
-        raise MachineryError("no accepted trace available for a canary")
+                some = True
+                if want not in [c for c, _ in f]:
+                    return copy.deepcopy(t)
+        if some:
+            skipped.append(want)
+            raise Skip()
+        raise MachineryError("no trace available for the canary expecting %s" % want)
 
-    def nth(t, k, n=0):
-        return [e for e in t["ev"] if e["k"] == k][n]
+    def canary(want, pred, corrupt):
+        try:
+            t = pick(pred, want)
+        except Skip:
+            return
+        corrupt(t)
+        can.append((t, want))
 
     has_tab = lambda t: sum(1 for e in t["ev"] if e["k"] == "inst" and e["b"] == "sv") >= 3
+
     # 1. one digest corrupted
-    t = pick(has_tab)
-    obs = [e for e in t["ev"] if e["k"] == "obs"]
-    obs[-1]["dg"] = "0" * 64
-    can.append((t, "Deterministic"))
+    def c1(t):
+        [e for e in t["ev"] if e["k"] == "obs"][-1]["dg"] = "0" * 64
+    canary("Deterministic", has_tab, c1)
+
     # 2. a module duplicated in a copy of the table
-    t = pick(has_tab)
-    i = next(i for i, e in enumerate(t["ev"]) if e["k"] == "def" and e["kind"] == "module")
-    t["ev"].insert(i + 1, copy.deepcopy(t["ev"][i]))
-    can.append((t, "DefinedOnce"))
+    def c2(t):
+        i = next(i for i, e in enumerate(t["ev"]) if e["k"] == "def" and e["kind"] == "module")
+        t["ev"].insert(i + 1, copy.deepcopy(t["ev"][i]))
+    canary("DefinedOnce", has_tab, c2)
+
     # 3. an instance's module renamed to an undefined one (at the site and in the instance)
-    t = pick(has_tab)
-    dm = [e for e in t["ev"] if e["k"] == "def" and e["sites"]][0]
-    dm["sites"][0] = dm["sites"][0] + "_undefined"
-    can.append((t, "InstancesDefined"))
-    t = pick(has_tab)
-    x = [e for e in t["ev"] if e["k"] == "inst" and not e["top"]][0]
-    x["mod"] = x["uses"][0]["name"] = x["mod"] + "_undefined"
-    can.append((t, "UsesDefined"))
+    def c3a(t):
+        dm = [e for e in t["ev"] if e["k"] == "def" and e["sites"]][0]
+        dm["sites"][0] = dm["sites"][0] + "_undefined"
+    canary("InstancesDefined", has_tab, c3a)
+
+    def c3b(t):
+        x = [e for e in t["ev"] if e["k"] == "inst" and not e["top"]][0]
+        x["mod"] = x["uses"][0]["name"] = x["mod"] + "_undefined"
+    canary("UsesDefined", has_tab, c3b)
+
     # 4. two instances of one module: one alone-body differs
     def two_same(t):
         c = collections.Counter((e["b"], e["mod"]) for e in t["ev"] if e["k"] == "inst")
         return any(v >= 2 for v in c.values())
-    t = pick(two_same)
-    c = collections.Counter((e["b"], e["mod"]) for e in t["ev"] if e["k"] == "inst")
-    bm = [k for k, v in c.items() if v >= 2][0]
-    x = [e for e in t["ev"] if e["k"] == "inst" and (e["b"], e["mod"]) == bm][1]
-    x["uses"][0]["dg"] = "f" * 64
-    can.append((t, "NoAlias"))
+
+    def c4(t):
+        c = collections.Counter((e["b"], e["mod"]) for e in t["ev"] if e["k"] == "inst")
+        bm = [k for k, v in c.items() if v >= 2][0]
+        x = [e for e in t["ev"] if e["k"] == "inst" and (e["b"], e["mod"]) == bm][1]
+        x["uses"][0]["dg"] = "f" * 64
+    canary("NoAlias", two_same, c4)
+
     # 5. a typedef body differs between two users
     def two_td(t):
         c = collections.Counter((e["b"], u["name"]) for e in t["ev"] if e["k"] == "inst" for u in e["uses"] if u["kind"] == "typedef")
         return any(v >= 2 for v in c.values())
-    t = pick(two_td)
-    x = [e for e in t["ev"] if e["k"] == "inst" and any(u["kind"] == "typedef" for u in e["uses"])][-1]
-    [u for u in x["uses"] if u["kind"] == "typedef"][0]["dg"] = "e" * 64
-    can.append((t, "NoAliasType"))
+
+    def c5(t):
+        x = [e for e in t["ev"] if e["k"] == "inst" and any(u["kind"] == "typedef" for u in e["uses"])][-1]
+        [u for u in x["uses"] if u["kind"] == "typedef"][0]["dg"] = "e" * 64
+    canary("NoAliasType", two_td, c5)
+
     # 6. identifiers: reserved word, duplicate, illegal character, illegal module name
     for name, clause in (("logic", "IdentReserved"), ("let", "IdentReserved"), (None, "IdentUnique"),
                          ("a-1", "IdentLegal"), ("9lives", "IdentLegal")):
-        t = pick(has_tab)
-        dm = [e for e in t["ev"] if e["k"] == "def" and e["scopes"] and e["scopes"][0]["ids"]][0]
-        ids = dm["scopes"][0]["ids"]
-        ids.append(copy.deepcopy(ids[0]) if name is None else _ident(name))
-        can.append((t, clause))
-    t = pick(has_tab)
-    dm = [e for e in t["ev"] if e["k"] == "def"][0]
-    dm["name"]["c"][0] = ord("-")
-    can.append((t, "IdentLegal"))
+        def c6(t, name=name):
+            dm = [e for e in t["ev"] if e["k"] == "def" and e["scopes"] and e["scopes"][0]["ids"]][0]
+            ids = dm["scopes"][0]["ids"]
+            ids.append(copy.deepcopy(ids[0]) if name is None else _ident(name))
+        canary(clause, has_tab, c6)
+
+    def c6b(t):
+        dm = [e for e in t["ev"] if e["k"] == "def"][0]
+        dm["name"]["c"][0] = ord("-")
+    canary("IdentLegal", has_tab, c6b)
+
     # 7. site name differs from the instance's module name
-    t = pick(has_tab)
-    x = [e for e in t["ev"] if e["k"] == "inst" and not e["top"]][0]
-    x["site"] = x["site"] + "_x"
-    can.append((t, "InstSiteName"))
+    def c7(t):
+        x = [e for e in t["ev"] if e["k"] == "inst" and not e["top"]][0]
+        x["site"] = x["site"] + "_x"
+    canary("InstSiteName", has_tab, c7)
+
     # 8. emitted definition differs from the alone-body
-    t = pick(has_tab)
-    dm = [e for e in t["ev"] if e["k"] == "def" and e["kind"] == "module"][0]
-    dm["dg"] = "d" * 64
-    can.append((t, "DefIsBody"))
+    def c8(t):
+        dm = [e for e in t["ev"] if e["k"] == "def" and e["kind"] == "module"][0]
+        dm["dg"] = "d" * 64
+    canary("DefIsBody", has_tab, c8)
+
     # 9. text-level: a module duplicated / an instantiation renamed in the emitted TEXT, re-parsed
+    n_text = 0
     for did, b, text in texts:
         m = re.search(r"^module .*?^endmodule\n", text, re.M | re.S)
         im = re.search(r"^(\s+)(\w+)( \w+\n\s+\()", text, re.M)
         if not m or not im:
             continue
-        t = pick(lambda tr: tr["design"] == did)
-        k0 = next(i for i, e in enumerate(t["ev"]) if e["k"] == "tab" and e["b"] == b)
-        k1 = next(i for i, e in enumerate(t["ev"]) if e["k"] == "inst" and e["b"] == b)
-        t2 = copy.deepcopy(t)
-        t2["ev"][k0 + 1:k1] = _def_events(_parse(text + "\n" + m.group(0), "canary"))
-        can.append((t2, "DefinedOnce"))
-        t3 = copy.deepcopy(t)
-        t3["ev"][k0 + 1:k1] = _def_events(_parse(text[:im.start(2)] + "NoSuchModule" + text[im.end(2):], "canary"))
-        can.append((t3, "InstancesDefined"))
+        for want, new_text in (("DefinedOnce", text + "\n" + m.group(0)),
+                               ("InstancesDefined", text[:im.start(2)] + "NoSuchModule" + text[im.end(2):])):
+            def c9(t, b=b, new_text=new_text):
+                k0 = next(i for i, e in enumerate(t["ev"]) if e["k"] == "tab" and e["b"] == b)
+                k1 = next(i for i, e in enumerate(t["ev"]) if e["k"] == "inst" and e["b"] == b)
+                t["ev"][k0 + 1:k1] = _def_events(_parse(new_text, "canary"))
+            canary(want, lambda tr, did=did: tr["design"] == did, c9)
+        n_text += 1
         break
-    else:
+    if not n_text:
         raise MachineryError("no text available for the text-level canaries")
+    if len(set(skipped)) > 2:
+        raise MachineryError("canaries for more than two clauses could not be built: every suitable real trace "
+                             "already fails %s" % sorted(set(skipped)))
+    if skipped:
+        res.note("canaries_skipped_clause_already_rejects_every_suitable_trace", sorted(set(skipped)))
     cf = _validate(res, [c[0] for c in can], count=False)
     for (t, want), f in zip(can, cf):
         if want not in [x[0] for x in f]:
@@ -615,7 +653,7 @@ def _seed_sensitive(d, k):
     if d["group"] in ("example", "stdlib"):
         return True
     if d["group"] == "collide":
-        return d["id"].split("_")[0] in ("hash", "parstr", "par", "arg", "beh", "bs")
+        return d["id"].split("_")[0] in ("hash", "parstr", "par", "pareq", "paraddr", "ctl", "arg", "beh", "bs")
     return k % 3 == 0
 
 
@@ -745,7 +783,7 @@ def _explore(res, tier, quick, nseeds):
         _canaries(res, traces, fails, texts)
         # samples
         for d, t in zip(designs, traces):
-            if d["id"] in ("cls_factory_diff_body", "std_Mux8x4", "ex_ProcRTL"):
+            if d["id"] in ("samename_factory_diff_body", "std_Mux8x4", "ex_ProcRTL"):
                 res.sample({"design": d["id"], "events": len(t["ev"]),
                             "observations": [(e["seed"], e["b"], e["dg"][:12]) for e in t["ev"] if e["k"] == "obs"][:6],
                             "instances": [(e["path"], e["mod"]) for e in t["ev"] if e["k"] == "inst" and e["b"] == "sv"][:6]})
